@@ -675,10 +675,16 @@ class LocSlice(Op):
         hi = draw(s.one_of(s.none(), s.sampled_from(vals)))
         if lo is None and hi is None:
             return None
-        return {"lo": lo, "hi": hi}
+        out = {"lo": lo, "hi": hi}
+        if kind_of(x) == "frame" and len(x.columns) and draw(s.integers(0, 2)) == 0:
+            out["cols"] = draw(s.one_of(s.sampled_from(list(x.columns)), s.just(_subset(draw, x.columns, max_size=3))))
+        return out
 
     @staticmethod
     def apply(side, objs, args):
+        if "cols" in args:
+            c = args["cols"]
+            return objs[0].loc[args["lo"] : args["hi"], list(c) if isinstance(c, list) else c]
         return objs[0].loc[args["lo"] : args["hi"]]
 
     @staticmethod
@@ -965,6 +971,53 @@ class Unique(Op):
         return replace(ins[0][1], rowset="", ordered=False, indexed=False, layout=False)
 
 
+@register("scalar_arith", kinds=("scalar",), weight=0.8, tags={"scalar"})
+class ScalarArith(Op):
+    @staticmethod
+    def gen(draw, ins):
+        x = ins[0][0]
+        if isinstance(x, (bool, np.bool_)) or not isinstance(x, (int, float, np.integer, np.floating)):
+            return None
+        s = st()
+        return {"op": draw(s.sampled_from(ARITH)), "c": draw(s.integers(1, 3)), "r": draw(s.booleans())}
+
+    @staticmethod
+    def apply(side, objs, args):
+        f = BIN[args["op"]]
+        return f(args["c"], objs[0]) if args["r"] else f(objs[0], args["c"])
+
+
+@register("scalar_binop", arity=2, kinds=("scalar", "scalar"), weight=0.8, tags={"scalar"})
+class ScalarBinop(Op):
+    @staticmethod
+    def gen(draw, ins):
+        for x, _ in ins:
+            if isinstance(x, (bool, np.bool_)) or not isinstance(x, (int, float, np.integer, np.floating)):
+                return None
+        return {"op": draw(st().sampled_from(ARITH))}
+
+    @staticmethod
+    def apply(side, objs, args):
+        return BIN[args["op"]](objs[0], objs[1])
+
+
+@register("bcast_scalar", arity=2, kinds=("series", "scalar"), weight=1.5, tags={"rowwise", "scalar"})
+class BcastScalar(Op):
+    @staticmethod
+    def gen(draw, ins):
+        (a, fa), (b, fb) = ins
+        if col_kind(a.dtype) not in ("int", "float"):
+            return None
+        if isinstance(b, (bool, np.bool_)) or not isinstance(b, (int, float, np.integer, np.floating)):
+            return None
+        return {"op": draw(st().sampled_from(ARITH + ["gt", "le"])), "r": draw(st().booleans())}
+
+    @staticmethod
+    def apply(side, objs, args):
+        f = BIN[args["op"]]
+        return f(objs[1], objs[0]) if args["r"] and args["op"] in ARITH else f(objs[0], objs[1])
+
+
 # ------------------------------------------------------------------ groupby
 
 GB_AGGS = ["sum", "min", "max", "count", "mean", "size", "first", "last", "var", "std", "nunique"]
@@ -1224,3 +1277,56 @@ class Cut(Op):
     @staticmethod
     def flags(ins, args, out):
         return replace(ins[0][1], rowset="")
+
+
+# ------------------------------------------------------------------ applicability (used by the minimiser)
+
+
+def precondition(opname, ins, args):
+    """The generator's applicability rules that are NOT implied by the pandas
+    side running: a minimised program must still satisfy them, otherwise the
+    minimiser could turn a genuine failure into an ill-posed query."""
+    fl = [f for _, f in ins]
+    vals = [v for v, _ in ins]
+    op = OPS[opname]
+    if "aligned" in op.tags and len(ins) > 1 and any(f.rowset != fl[0].rowset for f in fl[1:]):
+        return False
+    if opname in ("head", "cum", "shift") and not fl[0].ordered:
+        return False
+    if opname == "groupby_agg" and args.get("how") in ("first", "last") and not fl[0].ordered:
+        return False
+    if opname == "groupby_agg" and "agg" in args and any(v in ("first", "last") for v in args["agg"].values()) and not fl[0].ordered:
+        return False
+    if opname == "reset_index" and not fl[0].indexed and not args.get("drop"):
+        return False
+    if opname == "index_of" and not fl[0].indexed:
+        return False
+    if opname == "partitions" and not fl[0].layout:
+        return False
+    if opname == "loc_slice":
+        x = vals[0]
+        if not (fl[0].indexed and fl[0].ordered) or len(x) == 0 or not x.index.is_monotonic_increasing or x.index.hasnans or x.index.dtype.kind not in "iuf":
+            return False
+    if opname == "nlargest":
+        x = vals[0]
+        c = args["col"]
+        if c not in x.columns or not x[c].is_unique or x[c].isna().any():
+            return False
+    if opname == "set_index":
+        x = vals[0]
+        if len(x) == 0 or x[args["col"]].isna().any():
+            return False
+    if opname == "merge_index":
+        a, b = vals
+        if not (fl[0].indexed and fl[1].indexed) or a.index.dtype != b.index.dtype or a.index.hasnans or b.index.hasnans or a.index.name != b.index.name:
+            return False
+    if opname == "concat0":
+        a, b = vals
+        if list(a.columns) != list(b.columns) or list(map(str, a.dtypes)) != list(map(str, b.dtypes)) or a.index.dtype != b.index.dtype or a.index.name != b.index.name:
+            return False
+    if opname == "merge":
+        a, b = vals
+        for c in args["on"]:
+            if c not in a.columns or c not in b.columns or col_kind(a[c].dtype) != col_kind(b[c].dtype):
+                return False
+    return True
